@@ -16,8 +16,8 @@ CLAIMS = {
         "note": TRUST + 'Outside: symbolic x symbolic products beyond one word and dense literal multipliers (measured: the SAT back end does not finish), operands > 4 words, Toom-3 and the production thresholds (24/192 words).',
     },
     "C02": {
-        "text": BMC + "Defining identity a = q*b + r with the range/sign of r (never a second divider): single/double-word division kernels with literal divisors over all (2 words) / structured (3-4 words) dividends, power-of-two divisors 2^k and 2^(W+k) with symbolic k over all dividends; UBig / % div_rem div_euclid rem_euclid div_rem_euclid div_rem_assign /= %= is_multiple_of for structured operands of 0..3 (thorough 4) words; IBig truncating forms for every sign pair; IBig Euclidean forms for |a|,|b| < 2^10 in the inline-only regime; division by zero panics in every form; ConstDivisor (10 literal divisors of every class) agrees with plain division.",
-        "note": TRUST + "Outside: divide-and-conquer division (> 32 words), unconstrained full-width reciprocal division, symbolic ConstDivisor moduli (CBMC runs out of memory), literals on which CBMC itself crashes (2^64-1).",
+        "text": BMC + "Defining identity a = q*b + r with the range/sign of r (never a second divider): single/double-word division kernels with literal divisors over all (2 words) / structured (3-4 words) dividends, power-of-two divisors 2^k and 2^(W+k) with symbolic k over all dividends; UBig / % div_rem div_euclid rem_euclid div_rem_euclid div_rem_assign /= %= is_multiple_of for structured operands of 0..3 (thorough 4) words; IBig truncating forms for every sign pair; IBig Euclidean forms for |a|,|b| < 2^10 in the inline-only regime; division by zero panics in every form; ConstDivisor with literal divisors of one and two words (every class) agrees with plain division; the multi-word division kernel with literal 3-4-word divisors, literal upper dividend words and a symbolic low word returns the (q, r) computed outside.",
+        "note": TRUST + "Outside: divide-and-conquer division (> 32 words), unconstrained full-width reciprocal division, symbolic ConstDivisor moduli (CBMC runs out of memory), / % div_rem THROUGH a ConstDivisor of three or more words (the constants are lost behind Kani's union encoding of the enum, DESIGN 0.2 (o): candidates / probes), literals on which CBMC itself crashes (2^64-1).",
     },
     "C05": {
         "text": BMC + "==, cmp, partial_cmp, abs_cmp, abs_eq between arbitrary canonical UBig/IBig of 0..3 (thorough 4) words with every capacity variant (default / tight / max-compact) against the mathematical order; Hash byte streams recorded by a custom Hasher are equal exactly for equal values; canonical-form producers: from_words with leading zeros, clone, clone_from onto every shape and capacity, sign plumbing (from_parts/into_parts/neg/abs/signum), ones(n), from_static_words; every arithmetic harness of C01/C02/C09 additionally asserts the canonical layout of its result.",
@@ -25,11 +25,11 @@ CLAIMS = {
     },
     "C06": {
         "text": BMC + "FloatEncoding::encode/decode for f32 (all i32 x exponents -400..400) and f64 (all i64 x -1400..1400) against an integer reference model cross-checked against the compiler's int->float cast; all bit patterns for decode; From/TryFrom between the 12 primitive integer types (+bool) and UBig/IBig for every value / every integer of 0..3 words; to_f32/to_f64 (value, Exact flag, error sign) and TryFrom<UBig/IBig> for f32/f64 for integers of 0..4 (thorough 5) words.",
-        "note": TRUST + "Outside: TryFrom<f32/f64> for UBig/IBig (data-dependent shift amounts make CBMC run out of memory; a defect there - 1.5f32 converts to 1 - was observed natively and is documented, not decided), FBig/RBig conversions.",
+        "note": TRUST + "TryFrom<f32/f64> for UBig/IBig is decided at 13 LITERAL floats only (regression points for the repaired defect 1.5f32 -> Ok(1)). Outside: TryFrom<f32/f64> for UBig/IBig on symbolic floats (data-dependent shift amounts make CBMC run out of memory), FBig/RBig conversions.",
     },
     "C07": {
-        "text": BMC + "from_le_bytes / from_be_bytes, unsigned and two's complement, for EVERY byte string of 11 lengths between 0 and 25 (value and canonical layout against an explicit two's complement oracle); to_le_bytes / to_be_bytes of non-negative integers of 3 words (thorough 4) whose top word is one of 8 literals and whose lower words are symbolic: exact bytes, minimal length, round trip.",
-        "note": TRUST + 'Outside (probed, undecided - DESIGN 0.2 (m)): from_str_radix and every other parser, Display / in_radix / formatter flags, to_*_bytes of values of at most two words and of negative values (the byte count is data dependent: symbolic-size Vec), chunks; the -2^128 encoding defect named in the property text was observed natively only.',
+        "text": BMC + "from_le_bytes / from_be_bytes, unsigned and two's complement, for EVERY byte string of 11 lengths between 0 and 25 (value and canonical layout against an explicit two's complement oracle); to_le_bytes / to_be_bytes of non-negative integers of 3 words (thorough 4) whose top word is one of 8 literals and whose lower words are symbolic: exact bytes, minimal length, round trip; the byte round trip at 16 LITERAL integers on word/byte boundaries of both signs (regression points for the repaired -2^128 defect); from_str_with_radix_prefix on literal power-of-two-radix texts whose LAST digit is any ASCII byte, and on 20 LITERAL malformed / well-formed texts.",
+        "note": TRUST + 'Outside (probed, undecided - DESIGN 0.2 (m)): parsers on symbolic text beyond one trailing symbolic digit, radix 10, Display / in_radix / formatter flags, to_*_bytes of values of at most two words and of negative values (the byte count is data dependent: symbolic-size Vec), chunks.',
     },
     "C09": {
         "text": BMC + "shift kernels fully symbolic (4 words, symbolic amount); UBig & | ^ for lengths 0..3 (thorough 4) in every form; IBig & | ^ ! against an explicit two's complement oracle: non-negative operands to 3 words, negative operands to 2 words (inline-only regime); << and >> by 10 amounts around the word multiples for lengths 0..3, IBig >> as floor division for negative values (<= 2 words quick, 3 words thorough); bit(n) with symbolic n, bit_len, trailing_zeros/ones, count_ones/zeros, is_power_of_two for every sign and length 0..3 (thorough 4); set_bit/clear_bit/split_bits/clear_high_bits at 11 positions; next_power_of_two; UBig::ones(n).",
@@ -40,16 +40,16 @@ CLAIMS = {
         "note": TRUST + "Outside: FBig::trunc/floor/ceil/round/fract/to_int/with_precision and the RBig rounding functions (float and rational operations need an integer model; base-10 digit splitting divides by a symbolic power, which was probed and does not finish - DESIGN 4).",
     },
     "C12": {
-        "text": BMC + 'dashu-base gcd/gcd_ext for every pair of u8 (thorough u16): common divisor and Bezout identity; sqrt_rem/cbrt_rem for every u8/u16 (thorough u32); the no_std table-driven log2_bounds for every u8 and for windows of u16 and of the u32 prefix reduction against exact floor/ceil(2^40 log2 n) tables (quick: 5+3 windows of 1024/512 prefixes, thorough: all 64+64), next_up/next_down for every finite f32; UBig/IBig nth_root(n) of 0 for every n, IBig::cbrt on literals of both signs, ilog with power-of-two bases for 1..3 words, remove(2^k) on small values, and every documented panic (gcd(0,0), zeroth / even-negative roots, ilog domain).',
+        "text": BMC + 'dashu-base gcd/gcd_ext for every pair of u8 (thorough u16): common divisor and Bezout identity; sqrt_rem/cbrt_rem for every u8/u16 (thorough u32); the no_std table-driven log2_bounds for every u8 and for windows of u16 and of the u32 prefix reduction against exact floor/ceil(2^40 log2 n) tables (quick: 5+3 windows of 1024/512 prefixes, thorough: all 64+64), next_up/next_down for every finite f32; UBig/IBig nth_root(n) of 0 for every n, IBig::cbrt on literals of both signs, ilog with power-of-two bases for 1..3 words, remove(2^k) on small values, the gcd_ext_word kernel on the 3-word values [s, 5, 9] (s < 2^8) against literal words with the Bezout identity and signs, and every documented panic (gcd(0,0), zeroth / even-negative roots, ilog domain).',
         "note": TRUST + 'Outside (probed, undecided): Lehmer gcd and gcd_ext on multi-word operands, integer square roots beyond u16/u32 primitives, Newton nth_root with symbolic radicands, ilog with other bases, the std (libm) log2 estimator, FBig/RBig log2_bounds.',
     },
     "C13": {
-        "text": BMC + 'Rings with literal moduli (single word with and without normalisation shift, double word): + - neg dbl (and * sqr pow where the calibration showed them decidable) on elements +-p (p < 2^12 or 2^6): the residue equals the integer result reduced mod m; the multi-word ring kernels (add, sub, neg, dbl, swapped sub) for EVERY pair of residues below three literal 3-word moduli (with and without normalisation shift), through a cfg(dashu_verif) entry to the kernels; reduce() of every |a| < 2^32 for small moduli; mixing two ConstDivisor instances panics.',
-        "note": TRUST + 'Outside (probed, undecided): 3-word moduli, inv(), multiplication in double-word rings, symbolic moduli, multi-word exponents.',
+        "text": BMC + 'Rings with literal moduli (single word with and without normalisation shift, double word): + - neg dbl (and * sqr pow where the calibration showed them decidable) on elements +-p (p < 2^12 or 2^6): the residue equals the integer result reduced mod m; the multi-word ring kernels (add, sub, neg, dbl, swapped sub) for EVERY pair of residues below three literal 3-word moduli (with and without normalisation shift), through a cfg(dashu_verif) entry to the kernels; inv_large at 12 LITERAL points of two 3-word rings (one- and two-word residues with and without a common factor with the modulus); reduce() of every |a| < 2^32 for small moduli; mixing two ConstDivisor instances panics.',
+        "note": TRUST + 'Outside (probed, undecided): operators in 3-word rings through ConstDivisor, inv() of residues of three or more words (Lehmer gcd), multiplication in double-word rings, symbolic moduli, multi-word exponents.',
     },
     "C14": {
         "text": BMC + "NumOrd in both directions between UBig/IBig of 0..3 words (32-bit words: 0..5) and every value of the 12 primitive integer types, and between UBig and IBig; NumHash byte streams of UBig/IBig and of the primitive u64/i64 (thorough u128/i128) of the same value are identical; AbsOrd/AbsEq mixed forms (with C05).",
-        "note": TRUST + "Outside: comparison with f32/f64 (data-dependent shift; a defect - UBig::ZERO.num_partial_cmp(&0.25f32) = Greater - was observed natively and is documented, not decided), FBig/RBig pairs.",
+        "note": TRUST + "NumOrd against f32/f64 is decided on a 7 x 9 grid of LITERAL integers and floats only (regression points for the repaired zero-vs-small-float defect). Outside: comparison with symbolic f32/f64 (data-dependent shift), FBig/RBig pairs.",
     },
     "C15": {
         "text": BMC + "Differential and oracle-based agreement of call forms: the five ownership/assignment forms of + - * & | ^ and the forms of / % div_rem (C01/C02/C09 harnesses each instantiate every form against the same oracle), mixed UBig/IBig forms, primitive-operand forms, clone and clone_from onto every previous shape (equal and independent), x op= &x.clone() sequences, Reduced forms, and FBig << / <<= / >> / >>= on symbolic (significand, exponent, amount).",
